@@ -256,6 +256,16 @@ func (w *Worker) runCase(st *Stage, idx uint64) {
 			w.Res.HarnessErr = fmt.Sprintf("harness panic in %s[%d]: %v\n%s", st.Name, idx, val, stack)
 		}
 	}
+	if w.Hooks != nil {
+		// every property: a pooled object released twice, or handed out while still held, is a defect wherever it happens
+		if errs := w.Hooks.TakeOwnErrs(); len(errs) > 0 {
+			kind := errs[0]
+			if i := strings.IndexByte(kind, ' '); i > 0 {
+				kind = kind[:i]
+			}
+			c.Failf("pool-ownership/"+kind, "the pool-ownership monitor saw %d violation(s) during this case: %v", len(errs), errs)
+		}
+	}
 	if c.evals == 0 {
 		c.evals = 1
 	}
